@@ -30,7 +30,7 @@ BUDGET = {'quick': (8, 80), 'thorough': (16, 500)}
 ALPHA = ['a', "'", '"', '\\', '%', ':', ';', '-', '\n']
 CONTROL = ['\r', '\x00', '\x1a', '\t', '\b', '\x7f', 'a\rb', "'\r'", '\r\n', '\\\r']
 OUTPUTS = ['to_string', 'mysql', 'postgresql', 'sqlite', 'mssql', 'oracle']
-POSITIONS = ['select', 'where', 'in', 'insert', 'update']
+POSITIONS = ['select', 'where', 'in', 'insert', 'update', 'in-long']
 INJECTION = ["' OR 1=1 -- ", "\\' OR 1=1 -- ", "'; DROP TABLE t; --", "a' UNION SELECT 'b", "\\", "a\\", "\\\\'", "x'/*", "*/'", "%s", "%(x)s", ":x", ":1",
              "it's", "''", "'\\''", '"', 'a"b', "\\'", "\\\"", "line1\nline2", "tab\there", "nul\x00byte", "é'é", "漢'字", "🙂", "--", "/*", ";", "${x}", "{}", "%%"]
 MARK = 'QXQ'
@@ -58,6 +58,11 @@ def build(pos, value):
     if pos == 'in':
         return A.Select(targets=[A.Identifier('a')], from_table=A.Identifier('t1'),
                         where=A.BinaryOperation('in', args=[A.Identifier('b'), A.Tuple([c, A.Constant(7)])]))
+    if pos == 'in-long':
+        # a list long enough to cross any "small list" threshold in the renderer
+        items = [A.Constant(1000 + i) for i in range(40)] + [c] + [A.Constant(f's{i}') for i in range(40)]
+        return A.Select(targets=[A.Identifier('a')], from_table=A.Identifier('t1'),
+                        where=A.BinaryOperation('in', args=[A.Identifier('b'), A.Tuple(items)]))
     if pos == 'insert':
         return A.Insert(table=A.Identifier('t1'), columns=[A.Identifier('b'), A.Identifier('zz')], values=[[c, A.Constant(7)]])
     if pos == 'update':
